@@ -45,9 +45,9 @@ CLAIMED["C16"] = ("(a) typestate over sexp_gc / sexp_destroy_context: mark*, wea
     "(b) Ephemeron type row: key is the single weak slot, value the one extra slot, neither strongly traced, and a weak-column reader can reach the marker; "
     "(c) every close/fclose of a fileno's descriptor or port stream in any unit (incl. generated stubs) is dominated by the owner's openp test and the store openp=0; every refcount decrement observes its zero transition, counts of filenos not allocated on the spot are only incremented / decremented, and the function that stores a fileno into a port increments its count; "
     "(e) a non-owning cpointer wrapping memory reached through another cpointer's C value names that object as parent (generated struct getters, on the re-generated stubs); (f) no loop over a cursor is re-entered with the cursor exhausted (the second finalization pass). "
-    "(d) every reference field of every type is traced, so an owner keeps the descriptor object it owns alive. "
+    "(d) every reference field of every type is traced, so an owner keeps the descriptor object it owns alive; (g) the collect-and-retry loops on descriptor exhaustion take the retry on the first EMFILE and collect before opening again (constant propagation over the retry counter). "
     "Necessary conditions of 'exactly once / only when unreachable'; reachability timing itself is not decided.",
-    "typestate over the CFG (phase automaton), table/layout agreement, dominance (guard + flag store dominate release), call-graph reachability",
+    "typestate over the CFG (phase automaton), table/layout agreement, dominance (guard + flag store dominate release), call-graph reachability, constant propagation over a loop counter",
     "3 C16")
 
 CLAIMED["C01"] = ("Structural clauses: (b) kind-set dataflow proves every typed access on a C primitive's parameter (or on a value loaded "
